@@ -1,0 +1,36 @@
+// Copyright (C) The Arvados Authors. All rights reserved.
+//
+// SPDX-License-Identifier: Apache-2.0
+
+//go:build verif
+// +build verif
+
+// Machine-checked contracts (read by /verif/bin/govc; never compiled into
+// normal builds).  See /verif/DESIGN.md section 3 for the language.
+
+package arvados
+
+// ------------------------------------------------------------ C07: signatures
+// The signature is the lowercase hex HMAC-SHA1, under the signing key, of
+//   hash "@" token "@" expiry-hex "@" ttl-hex
+// exactly as services/api/app/models/blob.rb computes it (transcribed by hand).
+//@ spec macro permMessage(hash, token, expiryHex, ttlHex) string = hash + "@" + token + "@" + expiryHex + "@" + ttlHex
+
+//@ func makePermSignature property C07
+//@   modifies fresh(mem:byte) fresh(ghost:written)
+//@   ensures result == hmacsha1hex(string(permissionSecret), permMessage(blobHash, apiToken, expiry, blobSignatureTTL))
+
+//@ func SignLocator property C07
+//@   ensures len(permissionSecret) == 0 || apiToken == "" ==> result == blobLocator
+//@   ensures len(permissionSecret) != 0 && apiToken != "" ==> result == blobLocator + "+A" + hmacsha1hex(string(permissionSecret), permMessage(splitpart(blobLocator, "+", 0), apiToken, fmt08x(time.Time.Unix(expiry)), strconv.FormatInt(int64(time.Duration.Seconds(blobSignatureTTL)), 16))) + "@" + fmt08x(time.Time.Unix(expiry))
+
+//@ func VerifySignature property C07
+//@   ensures !matches(signedLocator, `^([[:xdigit:]]{32})(\+[0-9]+)?((\+[B-Z][A-Za-z0-9@_-]*)*)(\+A([[:xdigit:]]{40})@([[:xdigit:]]{8}))((\+[B-Z][A-Za-z0-9@_-]*)*)$`) ==> result == ErrSignatureMissing
+//@   ensures result == nil || result == ErrSignatureExpired || result == ErrSignatureInvalid || result == ErrSignatureMissing
+//@   ensures result == nil ==> blobHash == signedLocator[0:32]
+//@   ensures result == nil ==> strings.Contains(signedLocator, "+A" + signatureHex + "@" + expiryHex)
+//@   ensures result == nil ==> signatureHex == hmacsha1hex(string(permissionSecret), permMessage(blobHash, apiToken, expiryHex, strconv.FormatInt(int64(time.Duration.Seconds(blobSignatureTTL)), 16)))
+
+// Duration.Duration is a type conversion (time.Duration(d)).
+//@ func Duration.Duration trusted pure
+//@   modifies nothing
